@@ -154,7 +154,7 @@ def space(tier):
             seen.add(tree)
     # depth-3 logical trees: relational operands from the reduced numeric
     # alphabet {i, 2, -2}, at least one side a leaf
-    red_small = num_trees(["i", "2", "-2"], 2)
+    red_small = num_trees(["i", "2", "-2"] if tier == "thorough" else ["i", "-2"], 2)
     bred = bool_trees(red_small, BOOL_RED, 3, rel_leaf_side=True)
     for tree in bred[3]:
         if tree not in seen:
@@ -295,13 +295,19 @@ def _kind(skel):
     return skel[0]
 
 
+def _okind(skel):
+    """operator name, or 'x' for any operand that is not an operator."""
+    return skel[1] if skel[0] in ("bin", "un") else "x"
+
+
 def _describe(skel):
-    """operator with the kinds of its operands, e.g. POW(POW,ref)."""
+    """operator with the kinds of its operands (non-operators collapsed to
+    x), e.g. POW(POW,x)."""
     if skel[0] == "bin":
-        return f"{skel[1]}({_kind(skel[2])},{_kind(skel[3])})"
+        return f"{skel[1]}({_okind(skel[2])},{_okind(skel[3])})"
     if skel[0] == "un":
-        return f"{skel[1]}({_kind(skel[2])})"
-    return _kind(skel)
+        return f"{skel[1]}({_okind(skel[2])})"
+    return "x"
 
 
 def first_mismatch(orig, new, parent=None, pos=None):
@@ -400,7 +406,10 @@ def process(items):
         verdicts[stmt_lines.index(lnum)].update(status="nonstandard", stderr=msg)
     # (b) read back; statements the reader rejects are removed one by one
     alive = [pos for pos in range(len(items))]
-    dropped = set()
+    # a statement that is not standard Fortran is already a violation; it is
+    # not also read back (the reader rightly rejects it)
+    dropped = {pos for pos in range(len(items))
+               if verdicts[pos]["status"] == "nonstandard"}
     back = None
     for _attempt in range(len(items) + 1):
         cur = [line for num, line in enumerate(lines, 1)
@@ -526,6 +535,18 @@ def run_case(case):
     failing = [tree for (_i, _k, tree), res in zip(items, verdicts)
                if res["status"] != "ok" or "reread_failed" in res]
     culprit = _culprits(failing) if failing else {}
+    # Counterfactual used only to NAME the mechanism: would the same tree be
+    # handled correctly if its signed literals were MINUS(unsigned literal)?
+    bad_items = [(k, t) for (_i, k, t), res in zip(items, verdicts)
+                 if (res["status"] != "ok" or "reread_failed" in res
+                     or "mismatch" in res) and _has_neglit(t)]
+    variant = {}
+    for start in range(0, len(bad_items), BATCH):
+        chunk = bad_items[start:start + BATCH]
+        res_v = process([(800000 + start + n, k, _unsign(t))
+                         for n, (k, t) in enumerate(chunk)])
+        for (_k, tree), one in zip(chunk, res_v):
+            variant[tree] = one
     viol = []
     classes = {}
     nontriv = 0
@@ -541,14 +562,21 @@ def run_case(case):
                          "msg": f"FortranWriter refuses tree {key}: {res['err']}",
                          "case": payload})
             continue
+        var = variant.get(tree)
         if status == "nonstandard":
-            viol.append({"key": key, "sig": f"nonstandard:{culprit[tree]}",
+            lit = var is not None and var["status"] == "ok"
+            viol.append({"key": key,
+                         "sig": ("signed-literal-not-parenthesised:nonstandard"
+                                 if lit else f"nonstandard:{culprit[tree]}"),
                          "msg": f"tree {key} is written as '{res['text']}' which "
                                 f"gfortran -std=f2008 rejects: {res['stderr']}",
                          "case": payload})
         if "reread_failed" in res:
             classes["reread-failed"] = classes.get("reread-failed", 0) + 1
-            viol.append({"key": key + "#rd", "sig": f"reread-failed:{culprit[tree]}",
+            lit = var is not None and "reread_failed" not in var
+            viol.append({"key": key + "#rd",
+                         "sig": ("signed-literal-not-parenthesised:reread-failed"
+                                 if lit else f"reread-failed:{culprit[tree]}"),
                          "msg": f"tree {key} is written as '{res['text']}' which the "
                                 f"reader cannot read back ({res['reread_failed']})",
                          "case": payload})
@@ -556,8 +584,13 @@ def run_case(case):
             par, pos, was, now = res["mismatch"]
             sev = "value-changing" if res["value_changing"] else "structure-only"
             classes[sev] = classes.get(sev, 0) + 1
+            # attributable to the signed literal iff the variant with
+            # MINUS(literal) does not show the same local mismatch
+            lit = var is not None and var.get("mismatch") != res["mismatch"]
             viol.append({"key": key + "#rt",
-                         "sig": f"roundtrip:{sev}:{par}[{pos}]={was}->{now}",
+                         "sig": (f"signed-literal-not-parenthesised:roundtrip:{sev}"
+                                 if lit else
+                                 f"roundtrip:{sev}:{par}[{pos}]={was}->{now}"),
                          "msg": f"tree {key} is written as '{res['text']}' and read "
                                 f"back with a different structure ({sev}): operand "
                                 f"{pos} of {par} was {was}, is now {now}",
@@ -566,6 +599,21 @@ def run_case(case):
     return {"evals": len(items), "nontrivial": nontriv, "states": len(items),
             "transitions": len(items) * 2, "validated": len(items),
             "classes": classes, "viol": viol, "sample": sample}
+
+
+def _has_neglit(tree):
+    if tree[0] == "leaf":
+        return tree[1].startswith("-")
+    return any(_has_neglit(t) for t in tree[2:])
+
+
+def _unsign(tree):
+    """Same tree with every signed literal -c replaced by MINUS(c)."""
+    if tree[0] == "leaf":
+        if tree[1].startswith("-"):
+            return ("un", "MINUS", ("leaf", tree[1][1:]))
+        return tree
+    return tree[:2] + tuple(_unsign(t) for t in tree[2:])
 
 
 def _describe_tree(tree):
